@@ -36,6 +36,7 @@ func runC16(c *Ctx) {
 	runC16rest(c)
 	purlFallbackOnlyWithoutHashMatches(c)
 	purlCriterionNeedsPurl(c)
+	compositeKeysSeparated(c, "composite-key-separated", pkgFilter(c.reachDecls("composite-key-separated", "sbom.(*NodeList).GetMatchingNode"), "sbom."))
 	// "precisely the nodes satisfying the criterion" and "does not depend on the order of nodes":
 	// the loops of the lookup and matching functions skip an element only for the criterion itself
 	const RL = "loop-totality"
